@@ -25,6 +25,14 @@
 #include "nmtools/array/view/concatenate.hpp"
 #include "nmtools/array/view/slice.hpp"
 #include "nmtools/array/view/ufuncs/add.hpp"
+#include "nmtools/array/view/pad.hpp"
+#include "nmtools/array/view/stack.hpp"
+#include "nmtools/array/view/compress.hpp"
+#include "nmtools/array/view/swapaxes.hpp"
+#include "nmtools/array/view/resize.hpp"
+#include "nmtools/array/view/expand.hpp"
+#include "nmtools/array/view/sliding_window.hpp"
+#include "nmtools/array/view/vstack.hpp"
 
 using namespace verif;
 namespace view = nmtools::view;
@@ -132,6 +140,21 @@ template <class A> static void view_ops(const std::string& cfg, const A& a) {
     { vj::value parts = vj::value::array(); parts.push(O()("k", "e").v); parts.push(O()("k", "s")("start", empty)("stop", empty)("step", JV({-1})).v);
       emit("slice", cfg, sh, O()("parts", parts)("enc", "packed").v, view::slice(a, Ellipsis, nmtools_tuple<nm::none_t, nm::none_t, int>{None, None, -1})); }
     emit("add", cfg, L2(JV(shape_v()), JV(shape_v())), none, view::add(a, a), true);
+#ifndef KINDS_SHORT_MENU
+    // second menu: views whose result extents exceed the source's (or depend on run-time arguments only)
+    { std::vector<long> wv(2 * D, 1); std::vector<size_t> ws(2 * D, 1);
+      emit("pad", cfg, sh, O()("widths", JV(wv))("value", 0L).v, view::pad(a, ws, 0L)); }
+    emit("stack", cfg, L2(JV(shape_v()), JV(shape_v())), O()("axis", 0L).v, view::stack(a, a, 0), true);
+    emit("vstack", cfg, L2(JV(shape_v()), JV(shape_v())), none, view::vstack(a, a), true);
+    { std::vector<long> cv; std::vector<int> ci; for (size_t i = 0; i < SH::ext[0]; i++) { cv.push_back(i % 2 == 0 ? 1 : 0); ci.push_back(i % 2 == 0 ? 1 : 0); }
+      emit("compress", cfg, sh, O()("cond", JV(cv))("axis", JV({0})).v, view::compress(ci, a, 0)); }
+    emit("swapaxes", cfg, sh, O()("a1", 0L)("a2", -1L).v, view::swapaxes(a, 0, -1));
+    { std::vector<long> dv; std::vector<size_t> ds; for (auto x : SH::ext) { dv.push_back((long)x + 1); ds.push_back(x + 1); }
+      emit("resize", cfg, sh, O()("dst", JV(dv)).v, view::resize(a, ds)); }
+    emit("expand", cfg, sh, O()("axis", L1(JV({0})))("spacing", JV({1}))("fill", 0L)("axis_int", true)("spacing_int", true).v, view::expand(a, 0, (size_t)1, 0L));
+    { const long w = SH::ext[D - 1] >= 2 ? 2 : 1;
+      emit("sliding_window", cfg, sh, O()("window", JV({w}))("axis", L1(JV({-1})))("window_int", true).v, view::sliding_window(a, (size_t)w, -1)); }
+#endif
 }
 
 static vj::value handle(const vj::value& c) {
